@@ -171,7 +171,7 @@ func QuickHeaders() HeaderUniverse {
 		Ifs:      [][]rm.Cond{nil, {rm.CondTrue}, {rm.CondFalse}, {rm.CondHdr}},
 		NoCT:     [][]string{nil},
 		CTs:      []string{"", JSON, XML, "application/json; charset=utf-8", "text/plain", "application/jsonx"},
-		Accepts:  []string{"", "*/*", JSON, XML, "text/plain", "application/xml;q=0.5, application/json", "application/jsonx"},
+		Accepts:  []string{"", "*/*", JSON, XML, "text/plain", "application/xml;q=0.5, application/json", "application/jsonx", ",;q=, " + JSON},
 		XCs:      []string{"", "1"},
 		Bodies:   []bool{false, true},
 	}
@@ -192,7 +192,7 @@ var PathSweepHeaders = []HeaderCombo{{}, {CT: JSON, Accept: JSON, Body: true, XC
 
 var baseTokens = []string{"a", "b", "{x}", "{y}", "{n:[0-9]+}", "{w:[a-z]}", "{s}.js", "{t:*}", "a:go", "{x}:go", "pre_{p}", "a.{p}.js"}
 var baseRoots = []string{"/", "/a", "/a/b", "/{r}", "/a/{r}"}
-var baseSegs = []string{"a", "b", "7", "ab", "x.js", "a.js", "a:go", "7:go", "", "pre_z"}
+var baseSegs = []string{"a", "b", "7", "ab", "x.js", "a.js", "a:go", "7:go", "", "pre_z", "é{x}"}
 
 // JSR311 documents literals, {v}, {v:regex} and the tail wildcard only.
 var jsrTokens = []string{"a", "b", "{x}", "{y}", "{n:[0-9]+}", "{w:[a-z]}", "{t:*}"}
@@ -230,7 +230,7 @@ func PathUniverse(r rm.Router, tier string, small bool) Universe {
 		if r == rm.Curly {
 			u.Tokens = append(append([]string{}, u.Tokens...), "pre_{p}.js", "{n:[0-9]}", "b:run")
 			u.Roots = append(append([]string{}, u.Roots...), "/{r:[0-9]+}", "/{q:[a-z]+}", "/a/", "/a/{r}/c", "/b")
-			u.Segs = append(append([]string{}, u.Segs...), "42", ".js", "é", strings.Repeat("z", 300), "a:run", "{x}", "a/b")
+			u.Segs = append(append([]string{}, u.Segs...), "42", ".js", strings.Repeat("z", 300), "a:run", "a/b")
 			u.Lead = true
 		} else {
 			u.Tokens = append(append([]string{}, u.Tokens...), "{n:[0-9]}")
